@@ -457,10 +457,10 @@ func headOfCrash(path string, n int) string {
 	}
 
 	s := string(b)
-	i := strings.Index(s, "fatal error: ")
+	i := -1
 
-	if j := strings.Index(s, "\npanic: "); j >= 0 && (i < 0 || j < i) {
-		i = j + 1
+	if kind, _, rest := goCrash(s); kind != "" {
+		i = len(s) - len(rest)
 	}
 
 	if i < 0 {
